@@ -22,13 +22,13 @@ import (
 
 type C11Case struct {
 	W       World `json:"world"`
-	Mode    int   `json:"mode"`     // 0 deletion timestamp, 1 pause
+	Mode    int   `json:"mode"`     // 0 deletion timestamp, 1 pause, 2 pause and - from op LowerAt on - a deletion timestamp as well
 	RaiseAt int   `json:"raise_at"` // the flag is raised before op RaiseAt
 	LowerAt int   `json:"lower_at"` // pause only: lowered before op LowerAt (>= RaiseAt)
 }
 
 func (c C11Case) Summary() interface{} {
-	return map[string]interface{}{"world": summarizeWorld(c.W), "mode": []string{"deletion", "pause"}[c.Mode], "raise_at": c.RaiseAt, "lower_at": c.LowerAt}
+	return map[string]interface{}{"world": summarizeWorld(c.W), "mode": []string{"deletion", "pause", "pause+deletion"}[c.Mode], "raise_at": c.RaiseAt, "lower_at": c.LowerAt}
 }
 
 func genC11(rt *rapid.T) C11Case {
@@ -40,7 +40,7 @@ func genC11(rt *rapid.T) C11Case {
 	// happen at all in the paused run (a paused reconcile makes no call), so the twin runs would not see
 	// the same environment history
 	o.interference = false
-	c := C11Case{W: genWorld(rt, o), Mode: rapid.IntRange(0, 1).Draw(rt, "mode")}
+	c := C11Case{W: genWorld(rt, o), Mode: rapid.SampledFrom([]int{0, 0, 1, 1, 1, 2}).Draw(rt, "mode")}
 	n := len(c.W.Ops)
 	c.RaiseAt = rapid.IntRange(0, n).Draw(rt, "raiseAt")
 	c.LowerAt = rapid.IntRange(c.RaiseAt, n).Draw(rt, "lowerAt")
@@ -201,6 +201,8 @@ func runC11(rep Rep, c C11Case) {
 	if c.Mode == 1 {
 		twin = s.cloneSys()
 		defer twin.Close()
+	}
+	if c.Mode >= 1 {
 		s.C.UpdateSet(NS, s.Name, func(x *asv1.StatefulSet) { helper.SetPausedReconcile(x, true) })
 		s.logf("user: pause raised")
 	} else {
@@ -212,16 +214,24 @@ func runC11(rep Rep, c C11Case) {
 		end = c.LowerAt
 	}
 	for i := c.RaiseAt; i < end; i++ {
+		if c.Mode == 2 && i == c.LowerAt {
+			s.C.MarkSetDeleting(NS, s.Name)
+			s.logf("user: set deletion timestamp raised (still paused)")
+		}
 		s.Run(&ops[i])
+	}
+	if c.Mode == 2 && c.LowerAt >= end {
+		s.C.MarkSetDeleting(NS, s.Name)
+		s.logf("user: set deletion timestamp raised (still paused)")
 	}
 	// one reconcile with fresh caches while the flag is certainly visible
 	s.Reconcile(&Op{K: OpReconcile})
 	rep.FP(worldFPAny(c))
 	if wouldWrite && flagged > 0 {
 		rep.Nontrivial()
-		rep.Label([]string{"deletion", "pause"}[c.Mode] + ":flag-raised-while-work-pending")
+		rep.Label([]string{"deletion", "pause", "pause+deletion"}[c.Mode] + ":flag-raised-while-work-pending")
 	}
-	if c.Mode == 0 {
+	if c.Mode != 1 {
 		return
 	}
 	// resume
